@@ -59,6 +59,7 @@ package pdf
 
 //@ func (*xRefEntry).IsFree (entry) (free)
 //@   pure
+//@   nilrecv
 //@   tags C04
 //@   ensures free == (entry == nil || entry.Pos < 0)
 
@@ -606,8 +607,10 @@ package pdf
 //@   ensures err == nil ==> s != nil && RN(s) && s.enc == r.enc
 
 //@ func getFromObjStm (r, number, sRef, getInt, enc) (obj, err)
-//@   trusted
-//@   assigns nothing
+//@   tags C05
+//@   claims pre/resolve/ pre/getObjStm/
+//@   requires r != nil
+//@   assigns *
 
 //@ func safeGetInteger (r, canObjStm) (f)
 //@   trusted
@@ -619,5 +622,69 @@ package pdf
 
 //@ func (*Reader).get (r, ref, canObjStm, scalarOnly) (obj, err)
 //@   tags C04
-//@   assigns nothing
+//@   assigns *
 //@   ensures !((ref % 4294967296) in r.xref) || r.xref[ref % 4294967296] == nil || r.xref[ref % 4294967296].Pos < 0 || r.xref[ref % 4294967296].Generation != (ref / 4294967296) % 65536 ==> obj == nil && err == nil
+
+// ---- object-stream discipline (C05): what is needed to open an object stream is never
+// ---- read from an object stream.  objStmOK is uninterpreted: a function that does not
+// ---- require it cannot ask a Getter for compressed objects, so the recursion
+// ---- Get -> getFromObjStm -> getObjStm -> DecodeStream -> GetFilters -> Get is cut.
+//@ spec func objStmOK(tag int, val int) bool
+
+//@ func (Getter).Get (g, ref, canObjStm) (obj, err)
+//@   trusted
+//@   requires canObjStm ==> objStmOK(tagof(g), intof(g))
+//@   assigns *
+
+//@ func (*CycleCheck).step (path, ref) (next, err)
+//@   trusted
+//@   nilrecv
+//@   assigns nothing
+//@   fresh next
+
+//@ func resolvePath (g, path, obj, canObjStm) (n, p, err)
+//@   tags C05
+//@   requires g != nil
+//@   requires canObjStm ==> objStmOK(tagof(g), intof(g))
+//@   assigns *
+
+//@ func resolve (r, obj, canObjStm) (n, err)
+//@   tags C05
+//@   requires r != nil
+//@   requires canObjStm ==> objStmOK(tagof(r), intof(r))
+//@   assigns *
+
+//@ func getIntegerNoObjStm (r, obj) (n, err)
+//@   tags C05
+//@   requires r != nil
+//@   assigns *
+
+//@ func MakeFilter (name, parms) (f, err)
+//@   trusted
+//@   assigns nothing
+
+//@ func resolveJBIG2Globals (r, path, f) (err)
+//@   tags C05
+//@   requires r != nil && f != nil
+//@   assigns *
+
+//@ func ReadAll (r, path, stream, limit) (data, err)
+//@   trusted
+//@   assigns *
+
+//@ func GetFilters (r, path, dict) (res, err)
+//@   tags C05
+//@   requires r != nil
+//@   assigns *
+
+//@ func DecodeStream (r, path, x) (rd, err)
+//@   tags C05
+//@   claims pre/GetFilters/ pre/(Getter).Get/ pre/resolve
+//@   requires r != nil && x != nil
+//@   assigns *
+
+//@ func getObjStm (r, stream, getInt, enc) (res, err)
+//@   tags C05
+//@   claims pre/DecodeStream/ pre/(Getter).Get/ pre/resolve
+//@   requires r != nil && stream != nil
+//@   assigns *
